@@ -25,6 +25,11 @@ Inductive case :=
 (* text of an uncaught thrown value: Error() of what Run returned, and
    String(e) evaluated by the script just before the throw *)
 | CText (t : thrown) (obs_go obs_js : list Z)
+(* does the built-in throw for this argument?  fn as in Model.model_throws, the
+   argument's ToNumber value; observed [threw; class of Run's error; e.name,
+   instanceof RangeError and Error, prototype, constructor, [[Class]] all right;
+   message non-empty; String(e) = name: message = Error()] (zeros when nothing is thrown) *)
+| CArg (fn : Z) (a : argval) (obs : list Z)
 (* file.FileSet.Position over several files *)
 | CFileSet (landed : Z) (files : list (list Z)) (idx : Z) (obs : option (Z * Z * Z)).
 
@@ -149,8 +154,19 @@ Fixpoint fileset_spec_in (l : list (Z * list Z)) (idx : Z) (k : Z) : option (Z *
   end.
 Definition fileset_spec (files : list (list Z)) (idx : Z) := fileset_spec_in (fileset_bases files 1) idx 0.
 
+Definition arg_expect (throws msg : bool) : list Z :=
+  if throws then [1; 3; 1; (if msg then 1 else 0); 1] else [0; 0; 0; 0; 0].
+
 Definition verdict (c : case) : Z * Z :=
   match c with
+  | CArg fn a obs =>
+      match spec_throws fn a with
+      | None => declined
+      | Some st =>
+          judge zlist_eqb obs
+                (arg_expect (model_throws fn a) (negb ((fn =? 5) || (fn =? 6))))
+                (arg_expect st true) cl_msg
+      end
   | CTrace landed files limit levels r hdr obs =>
       if negb hdr then (3, 0) else
       let b := base_fixes landed in
